@@ -604,6 +604,29 @@ int main(int argc, char **argv) {
                 if(calls > 50000000) break;
             }
             RET("\"calls\":%ld,\"total\":%lld", calls, (long long)out_off);
+        } else if(!strcmp(op, "readretry")) {
+            /* readretry C maxerr s1 s2 ... : a reader that does not give up at a failed call: it clears the error (if the library lets
+             * it) and calls again, up to maxerr times; stops at end of data (rc 0) or when the error cannot be cleared */
+            int maxerr = atoi(t[2]);
+            int k = 3, errs = 0, stuck = 0;
+            long calls = 0;
+            while(1) {
+                if(!t[k]) k = 3;
+                size_t n = strtoull(t[k++], NULL, 10);
+                char *b = malloc(n ? n : 1);
+                ssize_t r = zck_read(C(t[1]), b, n);
+                off_t o = out_off;
+                if(r > 0) out_append(b, r > (ssize_t)n ? n : (size_t)r);
+                free(b);
+                calls++;
+                zh_log("{\"i\":%d,\"ev\":\"read\",\"n\":%zu,\"rc\":%zd,\"off\":%lld}", opi, n, r, (long long)o);
+                if(r == 0) break;
+                if(r < 0) {
+                    if(++errs > maxerr || !zck_clear_error(C(t[1]))) { stuck = 1; break; }
+                }
+                if(calls > 50000000) break;
+            }
+            RET("\"calls\":%ld,\"total\":%lld,\"errors\":%d,\"gave_up\":%d", calls, (long long)out_off, errs, stuck);
         } else if(!strcmp(op, "vc")) {
             int r = zck_validate_checksums(C(t[1]));
             RET("\"rc\":%d", r);
